@@ -164,8 +164,19 @@ def r11_2(ctx: Ctx) -> None:
         refusals = _refusal_literals(fj)
         for node, lits in refusals:
             for text, truth in lits:
-                if "schema_version" in text and (f"{param}[" in text or f"{param}.get(" in text) and " == " in text and not truth:
-                    found = True
+                if "schema_version" in text and " == " in text and not truth:
+                    if f"{param}[" in text or f"{param}.get(" in text:
+                        found = True
+                    else:
+                        # the stored version may be named first (with a default for results that predate the field)
+                        try:
+                            names = {n.id for n in ast.walk(ast.parse(text, mode="eval")) if isinstance(n, ast.Name)}
+                        except SyntaxError:
+                            names = set()
+                        for name in names:
+                            if any("schema_version" in txt(v) and (f"{param}[" in txt(v) or f"{param}.get(" in txt(v))
+                                   for v in bound_from(fj, name)):
+                                found = True
         for node in walk_local(fj):
             if isinstance(node, ast.Assert) and "schema_version" in txt(node.test) and "==" in txt(node.test):
                 found = True
